@@ -62,6 +62,10 @@ func (check) Plan(tier string, seed int64) []harness.Batch {
 		s, _ = json.Marshal(spec{Kind: "timing", N: nt})
 		bs = append(bs, harness.Batch{Name: fmt.Sprintf("timing-%d", p), Seed: seed*37 + int64(p), Spec: s, TimeoutS: 3000, CaseTimeoutS: 300})
 	}
+	for p := 0; p < 4; p++ {
+		s, _ := json.Marshal(spec{Kind: "close-blocked", N: 3 * nt})
+		bs = append(bs, harness.Batch{Name: fmt.Sprintf("close-blocked-%d", p), Seed: seed*47 + int64(p), Spec: s, TimeoutS: 3000, CaseTimeoutS: 300})
+	}
 	// schedule injection uses process-global hook arming: serial batches
 	for p := 0; p < 4; p++ {
 		s, _ := json.Marshal(spec{Kind: "schedule", N: 6, Part: p})
@@ -633,6 +637,88 @@ func evalSchedule(tc timingCase) (key, detail, observed, expected string, crashe
 	return "", "", "", "", false
 }
 
+// closeCase: Close() while the parser is blocked waiting for input (what
+// Vaxis.Suspend does); the reader then returns the wake-up bytes.
+type closeCase struct {
+	Before     string `json:"before_hex"`
+	Wake       string `json:"wake_hex"`
+	ConsumerMs int    `json:"consumer_delay_ms"` // per item (a slow application)
+}
+
+func evalCloseBlocked(cc closeCase) (key, detail, observed, expected string) {
+	before, _ := hex.DecodeString(cc.Before)
+	wake, _ := hex.DecodeString(cc.Wake)
+	data := append(append([]byte(nil), before...), wake...)
+	closed := make(chan struct{})
+	// after the wake-up bytes the reader blocks for good: the input does not end
+	never := make(chan struct{})
+	rd := &parserun.Reader{Data: data, Chunks: []int{len(before), len(wake)}, Block: never}
+	if len(before) == 0 {
+		rd.Chunks = []int{len(wake)}
+	}
+	rd.Gate = func(readNo int, off int) {
+		if off == len(before) {
+			<-closed // the parser is inside Read when Close is called
+		}
+	}
+	var obs parserun.Obs
+	p := ansi.NewParser(rd)
+	done := make(chan struct{})
+	go func() {
+		defer close(done)
+		for seq := range p.Next() {
+			obs.Flatten(seq)
+			p.Finish(seq)
+			if cc.ConsumerMs > 0 {
+				time.Sleep(time.Duration(cc.ConsumerMs) * time.Millisecond)
+			}
+		}
+		obs.Closed = true
+	}()
+	// let the parser consume `before` and block in the read of the wake-up bytes
+	time.Sleep(15 * time.Millisecond)
+	p.Close()
+	close(closed)
+	waited := make(chan struct{})
+	go func() { p.WaitClose(); close(waited) }()
+	select {
+	case <-waited:
+	case <-time.After(20 * time.Second):
+		return "lifecycle:waitclose-never-returns", "Close was called while the parser waited for input and the reader then returned bytes: WaitClose did not return", fmt.Sprint(obs.Toks), "WaitClose returns"
+	}
+	select {
+	case <-done:
+	case <-time.After(20 * time.Second):
+		return "lifecycle:no-close-within-bound", "parser did not close its channel after Close", fmt.Sprint(obs.Toks), "EOF then close"
+	}
+	var l []string
+	for _, t := range obs.Toks {
+		l = append(l, t.String())
+	}
+	if obs.EOFs != 1 || obs.AfterEOF != 0 || len(obs.Toks) == 0 || obs.Toks[len(obs.Toks)-1].K != 'Z' {
+		return fmt.Sprintf("lifecycle:close-while-blocked:eofs=%d,after=%d", obs.EOFs, obs.AfterEOF), "after Close() on a parser blocked in Read the end-of-input marker must be delivered exactly once, as the last item, before the channel is closed", strings.Join(l, " "), "... EOF (exactly one, last), channel closed"
+	}
+	return "", "", "", ""
+}
+
+func runCloseBlocked(w *harness.W, r gen.R, n int) {
+	wakes := []string{"x", "\x1b", "\x1b[?62;4c", "\x1b[", "\x1b]0;t", "\u00e9", "ab\x1b"}
+	for i := 0; i < n; i++ {
+		cc := closeCase{Before: hex.EncodeToString([]byte(befores[r.Intn(len(befores))] + []string{"", "ab", "abc"}[r.Intn(3)])), Wake: hex.EncodeToString([]byte(wakes[r.Intn(len(wakes))])), ConsumerMs: []int{0, 0, 30}[r.Intn(3)]}
+		cj, _ := json.Marshal(cc)
+		w.Begin(string(cj))
+		key, det, obs, exp := evalCloseBlocked(cc)
+		w.End()
+		w.Case(string(cj))
+		w.Count("close_while_blocked_cases", 1)
+		if key != "" {
+			w.Violation(key, det, cc, obs, exp)
+		} else if i == 0 {
+			w.Sample(cc)
+		}
+	}
+}
+
 func (c check) Run(w *harness.W, b harness.Batch) {
 	var s spec
 	json.Unmarshal(b.Spec, &s)
@@ -646,6 +732,8 @@ func (c check) Run(w *harness.W, b harness.Batch) {
 		}
 	case "timing":
 		runTimingBatch(w, r, s.N)
+	case "close-blocked":
+		runCloseBlocked(w, r, s.N)
 	case "schedule":
 		runSchedule(w, r, s.N)
 	}
